@@ -69,7 +69,10 @@ NOMINAL = {
 
 
 def patch_spec(case):
-    spec = engine.std_patch("tdgl.device.polygon", "tdgl.device.device", "tdgl.geometry")
+    mods = ["tdgl.device.polygon", "tdgl.device.device", "tdgl.geometry"]
+    if case.params.get("kind") == "sharedmesh":
+        mods += ["tdgl.finite_volume.mesh", "tdgl.finite_volume.edge_mesh", "tdgl.finite_volume.util"]
+    spec = engine.std_patch(*mods)
     spec["tdgl.device.polygon"].update(geo=fakegeo.Geo, affinity=fakegeo.Affinity, explain_validity=fakegeo.explain_validity, path=fakegeo.PathModule)
     spec["tdgl.device.device"].update(affinity=fakegeo.Affinity, Point=fakegeo.ModelPoint)
     return spec
@@ -427,7 +430,14 @@ def body_sharedmesh(H, case):
     sites0 = np.array(mesh.sites, dtype=float)
     sym = H.mode == "sym"
     if sym:
-        mesh.sites = H.array2([[float(v) for v in row] for row in sites0])  # (constants, but symbolic-array semantics)
+        # every coordinate array of the mesh gets symbolic-array semantics (constants; in-place updates are tracked)
+        wrap = lambda a: H.array2([[float(v) for v in row] for row in np.asarray(a, dtype=float)])
+        for obj in (mesh, mesh.edge_mesh):
+            for nm, val in list(vars(obj).items()):
+                if isinstance(val, np.ndarray) and val.dtype.kind == "f" and val.ndim == 2:
+                    setattr(obj, nm, wrap(val))
+                elif isinstance(val, list) and val and all(isinstance(v, np.ndarray) and v.ndim == 2 for v in val):
+                    setattr(obj, nm, [wrap(v) for v in val])
     dev.mesh = mesh
     cp = dev.copy(with_mesh=True)
     H.prove("the copy is a different device", cp is not dev)
